@@ -109,7 +109,8 @@ int secp256k1_whitelist_verify(const secp256k1_context* ctx, const secp256k1_whi
     ARG_CHECK(offline_pubkeys != NULL);
     ARG_CHECK(sub_pubkey != NULL);
 
-    if (sig->n_keys > MAX_KEYS || sig->n_keys != n_keys) {
+    /* An empty ring proves nothing: its "signature" is a hash of public data. */
+    if (sig->n_keys == 0 || sig->n_keys > MAX_KEYS || sig->n_keys != n_keys) {
         return 0;
     }
     for (i = 0; i < sig->n_keys; i++) {
